@@ -85,12 +85,16 @@ func (pr *Pruner) Infeasible(ts []*Term) bool {
 	for _, n := range names {
 		fmt.Fprintf(&sb, "(assert %s)\n", n)
 	}
-	sb.WriteString("(check-sat)\n(pop)\n")
+	pr.queries++
+	marker := fmt.Sprintf("done-%d", pr.queries)
+	fmt.Fprintf(&sb, "(check-sat)\n(pop)\n(echo \"%s\")\n", marker)
 	if _, err := io.WriteString(pr.in, sb.String()); err != nil {
 		pr.dead = true
 		return false
 	}
-	pr.queries++
+	// read everything up to this query's marker: a stale or extra line can never be taken for this answer
+	verdict := ""
+	sawError := false
 	for {
 		line, err := pr.out.ReadString('\n')
 		if err != nil {
@@ -98,15 +102,20 @@ func (pr *Pruner) Infeasible(ts []*Term) bool {
 			return false
 		}
 		line = strings.TrimSpace(line)
+		if line == marker || line == "\""+marker+"\"" {
+			break
+		}
 		switch line {
-		case "unsat":
-			pr.pruned++
-			return true
-		case "sat", "unknown", "timeout":
-			return false
+		case "unsat", "sat", "unknown", "timeout":
+			verdict = line
 		}
 		if strings.HasPrefix(line, "(error") {
-			return false
+			sawError = true
 		}
 	}
+	if verdict == "unsat" && !sawError {
+		pr.pruned++
+		return true
+	}
+	return false
 }
